@@ -514,10 +514,17 @@ func c04Dests() []c04Dest {
 	plain := mc.NewFaultWriter(c04NoFault, false, false)
 	rf := mc.NewFaultWriter(c04NoFault, false, false)
 	rf.RFChunk = 1
+	// a destination that is itself a bundle.CountingWriter which the caller has already used (a prefix written
+	// through it before the bundle): count and trailing length are the bundle's own, not the counter's total
+	used := &bytes.Buffer{}
+	ucw := bundle.NewCountingWriter(used)
+	prefix := []byte("37 bytes written through the counter.")
+	ucw.Write(prefix)
 	return []c04Dest{
 		{"bytes.Buffer", buf, buf.Bytes},
 		{"plain", plain.Writer(false), plain.Accepted},
 		{"readerfrom-1byte", rf.Writer(true), rf.Accepted},
+		{"caller's CountingWriter, 37 bytes already counted", ucw, func() []byte { return used.Bytes()[len(prefix):] }},
 	}
 }
 
